@@ -70,7 +70,7 @@ fn main() {
     let cfg = DriverCfg {
         fixpoint: false,
         targets: TARGETS.iter().map(|t| t.name).collect(),
-        mutations_per_target: tier.pick(2_000, 200_000),
+        mutations_per_target: std::env::var("VH_C02_MUTATIONS").ok().and_then(|v| v.parse().ok()).unwrap_or(tier.pick(2_000, 200_000)),
         sweep: true,
     };
     run_iso(&mut ck, "iso-fuzz", &cfg);
